@@ -1,6 +1,7 @@
 package main
 
 import (
+	"encoding/binary"
 	"bytes"
 	"fmt"
 	"math/big"
@@ -28,6 +29,16 @@ func rawIAPrefix(ip net.IP, plen int) []byte {
 	b := make([]byte, 25)
 	b[8] = byte(plen)
 	copy(b[9:], ip.To16())
+	// the lifetimes a client may suggest in its hint (RFC 8415 18.2.1): zero, sensible, or preferred above valid. What the
+	// server answers does not depend on them (round 9). Chosen from the hint itself, so that a history replays as it was.
+	switch (int(b[24]) + int(b[23]) + plen) % 4 {
+	case 0:
+		binary.BigEndian.PutUint32(b[0:4], 1800)
+		binary.BigEndian.PutUint32(b[4:8], 600)
+	case 1:
+		binary.BigEndian.PutUint32(b[0:4], 600)
+		binary.BigEndian.PutUint32(b[4:8], 1200)
+	}
 	return b
 }
 
